@@ -18,7 +18,7 @@ func init() {
 		Patterns: []string{"./ring", "./loser"},
 		Run:      runC14,
 		Explanation: "Decides two structural clauses of 'reported token ranges coincide with key ownership and tile the key space' in every function returning ring.TokenRanges: (R1) no in-band sentinel: an unsigned local that is assigned both a constant K and a data value must not be compared with K to mean 'no value yet' (K is a legitimate token/range bound); " +
-			"(R2) a pending range end is always closed: on every path (loops unrolled once, flags tracked path-sensitively) from a statement that records a pending bound together with its boolean flag to a successful return, the bound is consumed by an append/addRange. NOT decided: the equality 'range contains key ⇔ lookup assigns key' and the tiling themselves (relations between two computations over runtime token values).",
+			"(R2) a pending range end is always closed: on every path (loops unrolled once, flags tracked path-sensitively) from a statement that records a pending bound together with its boolean flag to a successful return, the bound is consumed by an append/addRange. (R3) the k-way merge of token lists never lets an ended sequence beat a live one that holds the end marker 2^32-1 as a real token; (R4) every non-constant +/- on a 32-bit key or token in the lookup and range code is one of the reviewed sites (function + canonical expression, one reason each) and the guarded ones keep their guard — key arithmetic wraps silently exactly at the boundary tokens the property names; (R5) both producers of ring token lists sort an instance's tokens before the merge unless IsSorted. NOT decided: the equality 'range contains key ⇔ lookup assigns key' and the tiling themselves (relations between two computations over runtime token values).",
 	}
 }
 
@@ -118,8 +118,8 @@ func c14MergeMarker(c *core.Ctx, pkg *packages.Package) {
 		return
 	}
 	t := an.Table{G: g, From: g.EntryLoc(), FreeUnknown: true,
-		Atoms: []an.Atom{{Name: "cmp", Values: []string{"lt", "eq", "gt"}}, {Name: "bEnded", Values: []string{"T", "F"}}},
-		Binder: &an.Binder{Fn: pg, Cmp: map[string]string{"recv.nodes[p0].value|recv.nodes[p1].value": "cmp"}, Eq: map[string]string{"recv.nodes[p1].index|-1": "bEnded"}},
+		Atoms:   []an.Atom{{Name: "cmp", Values: []string{"lt", "eq", "gt"}}, {Name: "bEnded", Values: []string{"T", "F"}}},
+		Binder:  &an.Binder{Fn: pg, Cmp: map[string]string{"recv.nodes[p0].value|recv.nodes[p1].value": "cmp"}, Eq: map[string]string{"recv.nodes[p1].index|-1": "bEnded"}},
 		Targets: []an.Loc{aWins[0], bWins[0]}, Names: []string{"a wins", "b wins"},
 		Want: func(r an.Row, i int) an.Tri {
 			if r["bEnded"] == "T" && r["cmp"] == "gt" {
@@ -136,10 +136,10 @@ func c14MergeMarker(c *core.Ctx, pkg *packages.Package) {
 // ring's lookup and range code, keyed by function and canonical expression, with the reason it cannot
 // wrap wrongly. A new site is undecided until it has been reviewed (key arithmetic wraps silently).
 var c14Reviewed = map[string]string{
-	"(*PartitionRing).GetTokenRangesForPartition$1|(λp0 - 1)":                        "compared with the previous range end only: start==0 yields 2^32-1, which no earlier range of the ascending walk can end at (the wrap-around range is added last)",
-	"(*PartitionRing).GetTokenRangesForPartition|(each(recv.desc.Partitions[p0].Tokens) - 1)": "intended wrap: the owner of token 0 owns the range ending at 2^32-1, handled as the 'last range'",
-	"(*Ring).GetTokenRangesForInstance|(recv.ringTokensByZone[recv.ringDesc.Ingesters[p0].Zone][i] - 1)":  "i > 0 in a strictly ascending token list: the token is ≥ 1",
-	"(*Ring).GetTokenRangesForInstance|(recv.ringTokensByZone[recv.ringDesc.Ingesters[p0].Zone][0] - 1)":  "guarded by firstToken != 0 (checked below)",
+	"(*PartitionRing).GetTokenRangesForPartition$1|(λp0 - 1)":                                            "compared with the previous range end only: start==0 yields 2^32-1, which no earlier range of the ascending walk can end at (the wrap-around range is added last)",
+	"(*PartitionRing).GetTokenRangesForPartition|(each(recv.desc.Partitions[p0].Tokens) - 1)":            "intended wrap: the owner of token 0 owns the range ending at 2^32-1, handled as the 'last range'",
+	"(*Ring).GetTokenRangesForInstance|(recv.ringTokensByZone[recv.ringDesc.Ingesters[p0].Zone][i] - 1)": "i > 0 in a strictly ascending token list: the token is ≥ 1",
+	"(*Ring).GetTokenRangesForInstance|(recv.ringTokensByZone[recv.ringDesc.Ingesters[p0].Zone][0] - 1)": "guarded by firstToken != 0 (checked below)",
 	"tokenDistance|(p1 - p0)": "guarded by from < to (checked below)",
 }
 
